@@ -76,6 +76,9 @@ def init_state(run):
 def registry(run, tag):
     from contracts import system_edit as SE
     _discharge(run, [o for o in (SE.obligations(run, Source()) or []) if o.get("kind") == "canary" or tag in o.get("tags", [])], "registry operations")
+    if tag in ("C14", "C15"):
+        from contracts import system_edit2 as SE2
+        _discharge(run, [o for o in (SE2.obligations(run, Source()) or []) if o.get("kind") == "canary" or tag in o.get("tags", [])], "graph-editing methods")
 
 
 def frame(run):
